@@ -210,7 +210,13 @@ def decode(buf, strict=True):
         if pv(b'ANALOG', b'USED') is not None and nsub and pv(b'ANALOG', b'USED') & 0xFFFF != nchan: issue('hdr.analogs', 'header %d, ANALOG:USED %r' % (nchan, pv(b'ANALOG', b'USED')))
         if nsub and nmeas != nchan * nsub: issue('hdr.meas', 'samples per frame %d is not channels x sub-frames' % nmeas)
         _, pr = find_param(g, b'POINT', b'RATE')
-        if pr is not None and pr['type'] == 'F' and pr['vals'] and pr['vals'][0] != '%08x' % rate: issue('hdr.rate', 'header %08x, POINT:RATE %s' % (rate, pr['vals'][0]))
+        # "agree" for the rate is agreement to 1e-4 Hz (C05), the way the format's users compare the two floats: a file whose header
+        # float differs from POINT:RATE in its last bits is consistent (the library keeps such a header value when it loads one)
+        def _k(bits):
+            x = struct.unpack('<f', struct.pack('<I', bits))[0]
+            try: return int(struct.unpack('<f', struct.pack('<f', x * 10000.0))[0])
+            except (OverflowError, ValueError): return ('bits', bits)
+        if pr is not None and pr['type'] == 'F' and pr['vals'] and _k(int(pr['vals'][0], 16)) != _k(rate): issue('hdr.rate', 'header %08x, POINT:RATE %s' % (rate, pr['vals'][0]))
     per = 4 * npoints + nchan * nsub
     frames = []
     pos = data_off
